@@ -429,6 +429,10 @@ class Interp:
         """Interpret `fn` (FunctionDef in `module`) with abstract arguments."""
         kwargs = dict(kwargs or {})
         env = self.bind(module, fn, list(args), kwargs)
+        pobj = self.__dict__.setdefault("param_objs", {})
+        for v in env.values():
+            if isinstance(v, (Arr, Tup)):
+                pobj[id(v)] = v  # objects that belong to a caller (for aliasing through np.asarray)
         if closure:
             for k, v in closure.items():
                 env.setdefault(k, v)
@@ -539,6 +543,18 @@ class Interp:
         elif isinstance(s, ast.AugAssign):
             cur = self.eval(_load(s.target), env)
             v = self.binop(s.op, cur, self.eval(s.value, env), s)
+            if isinstance(cur, Arr) and isinstance(s.target, ast.Name):
+                # numpy's augmented assignment works in place: every alias of the array sees it, the caller's array included
+                if isinstance(cur, SymArr) or cur.meta.get("param") or cur.meta.get("alias_of_param"):
+                    self.event("param-mutation", s, "in-place %s on %s, which is (or may be, through np.asarray) the caller's own array" % (
+                        type(s.op).__name__, s.target.id))
+                    if isinstance(v, Arr):
+                        v = v.copy()
+                        v.meta = dict(v.meta)
+                        v.meta["alias_of_param"] = True
+                for k in list(env):
+                    if env[k] is cur and k != s.target.id:
+                        env[k] = v
             self.assign(s.target, v, env)
         elif isinstance(s, ast.If):
             self.exec_if(s, env)
@@ -643,6 +659,8 @@ class Interp:
             if len(v.items) != n:
                 raise AnalysisError("%s:%d: cannot unpack %d values into %d targets" % (self.cur_mod.name, node.lineno, len(v.items), n))
             return v.items
+        if isinstance(v, Arr) and v.ndim == 1 and v.meta.get("elements") is not None and len(v.meta["elements"]) == n:
+            return list(v.meta["elements"])
         if isinstance(v, Arr) and v.shape is not None and v.ndim >= 1:
             # unpacking along the first axis of an array (e.g. profiles given as an array)
             return [Unknown("unpack array %s[%d]" % (v.name, k)) for k in range(n)]
